@@ -49,7 +49,19 @@ CLAIMED["C17"] = dict(level="model_checking", technique="explicit-state breadth-
 CLAIMED["C18"] = dict(level="model_checking", technique="stateless model checking of the reader schedule: every Read answer size chosen by the explorer (all compositions for short streams, deviation-bounded beyond), EOF style, buffer sizes, on the real pull decoders",
    text="Streams of k values and all their truncations x {byte-slice, reader} decoders x buffer sizes x every read-size sequence x EOF together with / after the last bytes; one reference value per successful Next, then io.EOF; truncation => error other than io.EOF.",
    note="zero-byte reads not generated (outside the statement)", ref="DESIGN.md §5 C18")
-REASONS = {}
+CLAIMED["C13"] = dict(level="exploration", technique="exhaustive enumeration of (event stream, target type) pairs on the real Unfolder against a reference unfolder model",
+   text="Every tree <=N nodes (strings/keys by value and by reference) into generic targets; numeric cross product of every event kind x boundary value x every numeric target width in 6 shapes; objects of <=3 members over a 12-shape alphabet into struct targets (reflect.StructOf) with fields for any subset of the members, sentinel and '-' fields; expected results from model.RefUnfold, compared with model.SameGo.",
+   note="targets start zero plus sentinels; where the statement makes no promise (value does not fit, shape mismatch) only no-crash applies", ref="DESIGN.md §5 C13")
+CLAIMED["C14"] = dict(level="model_checking", technique="exhaustive enumeration of ALL (stream, target type) pairs + hostile announced lengths under a checkptr build with canaries and an allocation meter; explicit-state search over abandonment histories (cut after every event k, Reset, SetTarget, follow-up) with reflective fingerprints",
+   text="Every tree <=N nodes x ~70 target types regardless of compatibility; every container's announced length replaced by true+1, 2^16 .. 2^63-1; every event method must return nil or an error (no panic/fatal/step overrun), canaries intact, allocation proportional to events received, unsupported types refused at SetTarget; BFS over histories of abandoned documents: after Reset+SetTarget the follow-up document yields exactly a new unfolder's result and the stacks are idle.",
+   note="memory safety observed via canaries/checkptr/value comparison, not proved", ref="DESIGN.md §5 C14")
+CLAIMED["C15"] = dict(level="model_checking", technique="stateless model checking of chunk schedule x GC position (deviation-bounded) on the real parser->unfolder pipelines with buffer scribbling, clobberfree and checkptr",
+   text="Documents with strings/keys of 1..200 bytes x chunk schedules x 4 entry points x 5 targets x follow-up documents x one GC at every event boundary (thorough: also at instrumented points); the stored result must be unchanged after the harness overwrote every buffer, after the follow-up document reused the internal buffers and after a forced GC with clobberfree, and equal to a clean run; Fold->encoder output is GC-independent.",
+   note="an alias is only visible if the aliased bytes are overwritten: the harness overwrites everything it owns and forces buffer reuse", ref="DESIGN.md §5 C15")
+CLAIMED["C20"] = dict(level="model_checking", technique="explicit-state breadth-first search over key-cache states (reflective fingerprint) for every capacity, on the real unfolder with by-reference keys whose bytes are overwritten after each callback",
+   text="Capacities 0-4 (thorough 0-6) x 5 targets x documents of 1-3 keys over a 5-key alphabet; reachable cache states explored to a fixpoint/depth bound; on every transition all results equal those of an unfolder without cache and earlier results are intact; an LRU reference labels hit/miss/eviction/re-insertion coverage.",
+   note="5-key alphabet, documents of at most 3 keys", ref="DESIGN.md §5 C20")
+REASONS = {"C19": "check under construction in this round (cooperative scheduler); not claimed until it passes on the unchanged tree"}
 
 def main():
     na = []
